@@ -302,7 +302,10 @@ class SimAdapter:
             view = m[op["v"] % m.num_variants] if how == "getitem" else m.get_variant(op["v"] % m.num_variants)
             view.assign(**op["values"])
         elif k == "steady":
-            quiet(lambda: m.solve_steady())
+            if op.get("settings"):
+                quiet(lambda: m.solve_steady(solver_settings=dict(op["settings"])))
+            else:
+                quiet(lambda: m.solve_steady())
         elif k == "solve":
             quiet(lambda: m.solve())
         elif k == "describe":
@@ -543,6 +546,26 @@ class SeqAdapter:
             out["sim"] = {n: cols(sim[n]) for n in m.lhs_names}
         except Exception as e:
             out["sim"] = "EXC:" + type(e).__name__
+        # the same simulation with one LHS variable of a non-identity equation exogenized in one period: the
+        # equation is inverted for its residual there (another compiled function than the plain simulation uses)
+        try:
+            ir = _irispie()
+            nonid = m.nonidentity_index
+            if nonid:
+                name = m.lhs_names_in_equations[nonid[-1]]
+                plan = ir.PlanSimulate(m, span)
+                plan.exogenize(span[2], name)
+                db = self._input(m)
+                db[name][span[2]] = 1.2345
+                simp = quiet(lambda: m.simulate(db, span, plan=plan))
+                simp = simp[0] if isinstance(simp, tuple) else simp
+
+                def colsp(s):
+                    a = np.asarray(s.get_data(span), dtype=float)
+                    return byv([a[:, min(k, a.shape[1] - 1)].tolist() for k in range(nv)])
+                out["sim_exogenized"] = {n: colsp(simp[n]) for n in list(m.lhs_names) + ["res_" + name] if n in simp}
+        except Exception as e:
+            out["sim_exogenized"] = "EXC:" + type(e).__name__
         return out
 
     def read(self, m, tname, r):
